@@ -1061,7 +1061,8 @@ static EntryTableBArray bufr_tableb_read
 
       if (local == 1)
          {
-         if ((count == 7)&&(ligne[column[6]] == '-')) continue;
+         /* a line that ends before the flag column has no flag (the buffer still holds the previous line there) */
+         if ((count == 7)&&((int)strlen( ligne ) > column[6])&&(ligne[column[6]] == '-')) continue;
          }
       else
          {
